@@ -87,8 +87,12 @@ def run(ctx):
         for use_c in (False, True):
             ctx.current("align use_c=%s %r" % (use_c, wit))
             try:
-                a = Mon(qa, sa_, penalty=penalty, use_c=use_c)
-                a.align()
+                if rng.random() < 0.3:
+                    a = subsequence_alignment(qa, sa_, penalty=penalty, use_c=use_c)     # documented helper
+                    ctx.count("built_through_helper")
+                else:
+                    a = Mon(qa, sa_, penalty=penalty, use_c=use_c)
+                    a.align()
                 mf = [float(v) for v in a.matching_function()]
             except Exception as e:
                 ctx.violation("exception", fn="SubsequenceAlignment.align", use_c=use_c, error=repr(e)[:300], **wit)
